@@ -4,7 +4,7 @@
    lists of values on the grid. *)
 From Coq Require Import List Reals QArith.
 From FDAV Require Import Base.Num Base.Vec Base.Quad Model.Simpson Lemmas.Vec Lemmas.Quad Lemmas.Gram Lemmas.Simpson.
-From FDAV Require Import Gen.Helpers Lemmas.GenHelpers.
+From FDAV Require Import Gen.TrapzWeights Lemmas.GenTrapzWeights.
 Import ListNotations.
 Local Open Scope R_scope.
 
@@ -113,7 +113,7 @@ Proof. exact gram_sum_psd. Qed.
 Print Assumptions C08_gram_sum_psd.
 
 (* non-vacuity on a non-uniform 4-point grid *)
-(* ---------- the quadrature weights as TRANSLATED from /repo/FDApy/misc/utils.py on this run (Gen/Helpers.v) ----------
+(* ---------- the quadrature weights as TRANSLATED from /repo/FDApy/misc/utils.py on this run (Gen/TrapzWeights.v) ----------
    _integration_weights(x, method="trapz"), as the source reads now, is the weight vector of the trapezoid rule:
    integration agrees with the source's own quadrature weights, for every grid with at least two points. *)
 Theorem C08_source_trapz_weights_are_model : forall x, (2 <= length x)%nat -> gen_trapz_weights opsR x = trapz_w opsR x.
